@@ -488,7 +488,11 @@ func (b *Builder) AllComparisonSeries(existing []*ComparisonSeries, dupeHow int)
 		// TODO not handling overlapping samples between "existing" and "newly read" yet.
 
 		// Rearrange into paired comparisons, gathering repeats of same comparison from multiple experiments.
-		for tk, tr := range t.cells {
+		// Visit cells and tests in a fixed order: which of two experiments
+		// with equal dates is kept, which hash pair is recorded first and
+		// the order of diagnostics must not depend on map iteration order.
+		for _, tk := range sortCellKeys(t.cells) {
+			tr := t.cells[tk]
 			// tk == bench, experiment, tr == baseline, tests, tests == map hash -> cell.
 			bench := tk.Benchmark
 			dateString, err := NormalizeDateString(tk.Experiment.StringValues())
@@ -497,7 +501,8 @@ func (b *Builder) AllComparisonSeries(existing []*ComparisonSeries, dupeHow int)
 			}
 			benchString := bench.StringValues()
 			benches[benchString] = struct{}{}
-			for hash, cell := range tr.tests {
+			for _, hash := range sortTestKeys(tr.tests) {
+				cell := tr.tests[hash]
 				hashString := hash.StringValues()
 				ser := b.hashToOrder[hash]
 				serString, err := NormalizeDateString(ser.StringValues())
@@ -662,6 +667,31 @@ func sortStringSet(m map[string]struct{}) []string {
 		s = append(s, k)
 	}
 	sort.Strings(s)
+	return s
+}
+
+func sortCellKeys(m map[tableKey]*trial) []tableKey {
+	var s []tableKey
+	for k := range m {
+		s = append(s, k)
+	}
+	sort.Slice(s, func(i, j int) bool {
+		if bi, bj := s[i].Benchmark.StringValues(), s[j].Benchmark.StringValues(); bi != bj {
+			return bi < bj
+		}
+		return s[i].Experiment.StringValues() < s[j].Experiment.StringValues()
+	})
+	return s
+}
+
+func sortTestKeys(m map[benchproc.Key]*Cell) []benchproc.Key {
+	var s []benchproc.Key
+	for k := range m {
+		s = append(s, k)
+	}
+	sort.Slice(s, func(i, j int) bool {
+		return s[i].StringValues() < s[j].StringValues()
+	})
 	return s
 }
 
